@@ -400,6 +400,10 @@ public:
       _search_start -= released_area_size;
       _search_end = _area_size;
       _largest_unused_area += released_area_size;
+
+      if (area_used() == initial_area_start()) {
+        add_flags(kFlagEmpty);
+      }
     }
     else {
       _search_start = Support::min(_search_start, released_area_start);
